@@ -21,6 +21,7 @@ def check(v, tier, opts):
                         "rolling_custom(_to)", "rolling2_custom", "rolling_custom_iter",
                         "fast paths of Vec/[T]/[T;N]/Array1/ArrayView1, Arc delegation, VecDeque, OptIter, default bodies"])
     v.bounds.append("N in {0,1,4} quick, {0..6} thorough; w in 1..=N+3 symbolic; i32 / Option<i32> elements unconstrained")
+    v.bounds.append("caller-supplied ndarray out views not in standard layout (reversed step -1, strided step 2): N = 2, rolling_apply")
     v.outside.append("Polars backend (polars-core object graph not encodable); lengths above the bound")
     kani_engine.decide(v, "C02", tier, opts)
     return v.finish(RULE)
